@@ -11,7 +11,7 @@ import z3
 from harness import c05 as C05
 from harness.c04 import _cut_reduction
 from symx import fp
-from symx.core import (SReal, Unsupported, assume, cur, eq_arrays, explore, integer, marray, mfloat, mval, real, reals, resume, rv, single_path, solve, terms)
+from symx.core import (SReal, Unsupported, assume, cur, eq_arrays, explore, integer, marray, mfloat, mval, real, reals, resume, rv, single_path, slice_for, solve, terms)
 from symx.dtmodel import SDateTime
 from symx.runner import Ob
 from symx.stubs import shadow, sym_array
@@ -25,7 +25,10 @@ TECHNIQUE = ("the real Terrestrial.__init__/propagate, dynamicsFactory (ground b
              "candidate's day); (O2, O4, O5) start instant, clock reading, step and elapsed whole seconds are z3 integers, the frame rotations are cut to their contract "
              "(eci2ecef(ecef2eci(x, d), d) = x, anything for different dates) so that every datetime reaching a rotation is a solver term; (O6) the same flow for a ground sensor that "
              "Scenario.addSensor receives with an ECI state on an advanced clock (SensorAdditionEvent); (O3) the real ecef2eci/eci2ecef run on "
-             "symbolic orthogonal polar-motion and precession-nutation-rotation matrices; the configured site is checked against the geodetic definition of (lat, lon, alt). "
+             "symbolic orthogonal polar-motion and precession-nutation-rotation matrices; the configured site is checked against the geodetic definition of (lat, lon, alt); "
+             "(O7) the same creation flow for a configuration object with a history: validated at one site (real pydantic validation of the real SensingAgentConfig at a concrete site, or "
+             "emulated validation at a symbolic site), then edited through the public API (attribute assignment, model_copy(update=...), also after a first agent was built from it) to "
+             "symbolic latitude/longitude/altitude - the site must be the geodetic point of the values the public fields show, and equal to the site of a directly validated configuration. "
              "z3 decides each assertion for all values; models are replayed on the real code with plain floats")
 FLOAT_SEMANTICS = ("O1: IEEE-754 double (relaxed encoding = sound over-approximation for proofs; exact round-to-nearest-even for a candidate's day); "
                    "O2/O4/O5: exact integer seconds (all scenario times are whole seconds, exactly representable); O3/site: Real-ideal")
@@ -44,6 +47,12 @@ BOUNDS = {"O1 start instants": "every whole second 1901-01-01 .. 2099-12-31 of t
           "elapsed time": "clock reading k0*dt and propagation times: whole seconds 0 .. 30 days (crossing midnight, month and year ends)",
           "dt": "symbolic whole seconds 1 .. 86400", "steps": "quick: 2 consecutive propagation steps after creation; thorough: 3; O2: 2 (quick) / 3 consecutive propagate calls",
           "site": "latitude -90..90 deg, longitude -360..360 deg, altitude -1..100 km (symbolic reals)",
+          "O7 histories": "one edit step between validation and agent construction; quick: assignment of all three fields / model_copy(update=all three) / first agent built, then assignment, "
+                          "each starting from the real pydantic validation at the concrete site lat 35 deg, lon 139 deg, alt 0.25 km, and assignment of the longitude alone starting "
+                          "from a symbolic site; thorough adds: model_copy of the latitude alone, of longitude+altitude, assignment of the altitude alone, reuse-then-assign, all from a symbolic first site "
+                          "(first-site values inside the same site bounds)",
+          "O7 oracle": "the geodetic facets of the site for the values the public fields show when the agent is built, and site == site of another agent's configuration validated directly at "
+                       "the same values (reference built after the history under test, so that it does not disturb it)",
           "O3": "any site position r in R^3, any orthogonal W, N and any length-of-day",
           "O6": "any 6-vector as configured ECI state; clock reading as above; quick: 1 step after creation, thorough: 2"}
 OUTSIDE = ["numerical content of ReductionParams.build (IAU-76/FK5 series, EOP table values): cut to symbolic orthogonal matrices (their orthogonality is C04-O4a)",
@@ -52,6 +61,8 @@ OUTSIDE = ["numerical content of ReductionParams.build (IAU-76/FK5 series, EOP t
            "double rounding inside the rotations (about 1e-9 km) is outside",
            "ground facilities configured by orbital elements (COE/EQE); for an ECI-configured one (what a SensorAdditionEvent hands to Scenario.addSensor) only 'held at the Earth-fixed point it is "
            "created at' is claimed (O6), the conversion of the event's LLA state to ECI in SensorAdditionEvent.fromConfig is not",
+           "configuration histories other than the listed single edit step (several edits, edits of the platform or of the enclosing ScenarioConfig, dump-edit-revalidate round trips, "
+           "pickling/deep copies of configuration objects); pydantic's own type coercion and Field constraints of the float fields",
            "SensingAgent.importState (C19); sub-second start instants or steps; leap seconds; events whose time is not a step boundary",
            "Earth-orientation table coverage itself (MissingEOP outside 2014-01-01 .. 2022-10-04)"]
 ASSUMPTIONS = ["datetime/timedelta -> integer calendar model (symx.dtmodel, validated in C05 'dtmodel'), with a replace() for the time-of-day fields added in this harness",
@@ -59,6 +70,11 @@ ASSUMPTIONS = ["datetime/timedelta -> integer calendar model (symx.dtmodel, vali
                "O2/O4/O5: clock.julian_date_start is a token double; julianDateToDatetime(token) = the instant it was made from (this is exactly what O1 proves at this call site); any other Julian date -> an arbitrary instant",
                "O2/O4/O5/O6: ecef2eci(x, d) -> a fresh ECI token vector; eci2ecef(token(x, d), d') -> x when d' = d (what O3 proves of the real pair), an unconstrained fresh vector otherwise; "
                "eci2ecef of any other vector (an ECI-configured state) -> an unknown function of (vector, date): same vector and provably equal dates give the same result, otherwise unconstrained",
+               "pydantic validation of LLAStateConfig on proxies (pydantic-core rejects non-floats) is emulated: model_construct (fields stored, private attributes initialised, model_post_init run) + "
+               "every declared 'after' model validator executed for real in declaration order; field validators / 'before' validators would be reported as unsupported (harness error); the emulation is "
+               "compared with the real validation on a pinned concrete site at the start of O4/O5/O7 (fields, private state, toECI); attribute assignment and model_copy are pydantic's real ones "
+               "(they accept proxies: no validate_assignment in these models)",
+               "O7 'from-validated': the first site is concrete (real validation needs floats); the edited values are symbolic. O7 'from-symbolic': first-site values of the edited fields are fresh symbolic reals",
                "ecef2lla -> uninterpreted token of its argument; sensorFactory -> a bare Optical object; ReductionParams.build in generateSubmission (station keeping only) -> stub",
                "degrees -> radians by the code's own constant DEG2RAD (angles are atoms of the angle algebra: cos/sin pairs with c^2+s^2=1); sqrt contract; Earth.radius/eccentricity at their double values",
                "O3: rot_w / rot_pnr replaced by symbolic orthogonal matrices (cut justified by C04-O4a), lod symbolic",
@@ -71,7 +87,7 @@ LEVEL_TEXT = ("Bounded symbolic verification: for every whole-second scenario st
               "reading, step and elapsed time (O2/O4/O5, exact integer seconds) and every site (geodetic oracle, Real-ideal) z3 proves that the ground agent's dynamics, initial state "
               "and per-step state are the configured Earth-fixed point rotated at exactly start + elapsed seconds, and (O3) that the rotation pair is an exact inverse pair giving the "
               "Earth-rotation velocity. Failing inputs (non-zero start seconds, advanced clocks, 31 Dec of leap years) are measure-thin for sampled scenarios.")
-LEVEL_NOTE = ("Whole seconds; calendar classes in the quick tier are the year-boundary months; frame rotations cut to the inverse-pair contract proved in O3; FK5 series/EOP values, "
+LEVEL_NOTE = ("Whole seconds; configuration histories: one public-API edit step after validation;  calendar classes in the quick tier are the year-boundary months; frame rotations cut to the inverse-pair contract proved in O3; FK5 series/EOP values, "
               "ecef2lla and double rounding inside the rotations are outside; for ECI-configured ground sensors only consistency (held where created) is claimed.")
 
 JD_LO, JD_HI = Fraction(4830041, 2), Fraction(4976899, 2)
@@ -563,12 +579,95 @@ def _bare_clock(start, jd_start, now, dt):
     return clock
 
 
-def _run_flow(nsteps, kind="lla"):
+# ------------------------------------------------------------------------------------------------
+# the site configuration object and its history (O7): validation, then public-API edits, then the agent is built
+# ------------------------------------------------------------------------------------------------
+FIELDS = ("latitude", "longitude", "altitude")
+FIELD_BOUNDS = {"latitude": (-90, 90), "longitude": (-360, 360), "altitude": (-1, 100)}
+INIT_SITE = {"latitude": 35.0, "longitude": 139.0, "altitude": 0.25}  # deg, deg, km: where the template configuration of a history is first validated
+
+
+def _emulated_validation(cls, **fields):
+    """pydantic validation of a model whose field values are proxies (pydantic-core rejects them): the fields are stored (model_construct, which also initialises
+    private attributes and runs model_post_init) and every declared 'after' model validator is executed for real, in declaration order, on the proxies."""
+    dec = cls.__pydantic_decorators__
+    if dec.field_validators or dec.validators or dec.root_validators:
+        raise Unsupported(f"emulated validation of {cls.__name__}: field/root validators are not modelled")
+    obj = cls.model_construct(**fields)
+    for name, d in dec.model_validators.items():
+        if d.info.mode != "after":
+            raise Unsupported(f"emulated validation of {cls.__name__}: model validator {name} of mode {d.info.mode}")
+        out = getattr(obj, name)()
+        obj = obj if out is None else out
+    return obj
+
+
+def _emulation_pin():
+    """The emulation agrees with the real pydantic validation on a pinned site: same fields, same private state, same toECI (plain floats, real code)."""
+    from resonaate.scenario.config.state_config import LLAStateConfig
+
+    real_one, emu = LLAStateConfig(**INIT_SITE), _emulated_validation(LLAStateConfig, **INIT_SITE)
+    t = _dt.datetime(2019, 7, 3, 11, 13, 17)
+    same = (real_one.__dict__ == emu.__dict__ and repr(real_one.__pydantic_private__) == repr(emu.__pydantic_private__) and real_one == emu
+            and np.array_equal(real_one.toECI(t), emu.toECI(t)))
+    return same, {"real": repr(real_one), "real_private": repr(real_one.__pydantic_private__), "emulated": repr(emu), "emulated_private": repr(emu.__pydantic_private__)}
+
+
+def _ground_cfg(state, agent_id=120002):
+    from resonaate.scenario.config.platform_config import GroundFacilityConfig
+
+    return types.SimpleNamespace(id=agent_id, name="GROUND SENSOR", state=state, platform=GroundFacilityConfig(mass=10000.0, visual_cross_section=400.0), sensor=None)
+
+
+def _real_cfg(site):
+    from resonaate.scenario.config.agent_config import SensingAgentConfig
+
+    return SensingAgentConfig(id=120002, name="GROUND SENSOR", platform={"type": "ground_facility"}, state={"type": "lla", **site}, sensor=SENSOR_DICT)
+
+
+def _apply_history(cfg, op, update, first_use):
+    """Public-API operations on an existing agent configuration: what a scenario builder does with a template site before the agent is built."""
+    if op == "reuse":
+        first_use(cfg)  # the template is used for a first facility (dynamicsFactory + SensingAgent.fromConfig), then edited for the next one
+    if op in ("assign", "reuse"):
+        for f, v in update.items():
+            setattr(cfg.state, f, v)
+        return cfg
+    if op == "copy":
+        state = cfg.state.model_copy(update=dict(update))
+        if isinstance(cfg, types.SimpleNamespace):
+            return types.SimpleNamespace(**{**vars(cfg), "state": state})
+        return cfg.model_copy(update={"state": state})
+    raise ValueError(op)
+
+
+def _lla_config(hist, new, first_use):
+    """The ground sensor's configuration with the LLA state `new` (proxies). hist None: validated at `new`. hist (op, fields, init): validated at another site
+    (init 'validated': by the real pydantic validation of the real SensingAgentConfig at the concrete INIT_SITE; init 'symbolic': emulated validation, the
+    fields that change start at fresh symbolic values), then `fields` are changed to their `new` values by `op`."""
+    from resonaate.scenario.config.state_config import LLAStateConfig
+
+    if hist is None:
+        return _ground_cfg(_emulated_validation(LLAStateConfig, **new)), {}
+    op, fields, init = hist
+    old = {}
+    if init == "validated":
+        if tuple(fields) != FIELDS:
+            raise ValueError("a history from the concrete validated site changes all three fields")
+        cfg = _real_cfg(INIT_SITE)
+    else:
+        for f in fields:
+            old[f] = real(f"old_{f}")
+            assume(old[f].t >= FIELD_BOUNDS[f][0], old[f].t <= FIELD_BOUNDS[f][1])
+        cfg = _ground_cfg(_emulated_validation(LLAStateConfig, **{**new, **old}))
+    return _apply_history(cfg, op, {f: new[f] for f in fields}, first_use), old
+
+
+def _run_flow(nsteps, kind="lla", hist=None):
     from resonaate import dynamics as DY
     from resonaate.agents import sensing_agent as SA
     from resonaate.parallel import agent_propagation as AP
-    from resonaate.scenario.config.platform_config import GroundFacilityConfig
-    from resonaate.scenario.config.state_config import ECIStateConfig, LLAStateConfig
+    from resonaate.scenario.config.state_config import ECIStateConfig
     from resonaate.sensors.optical import Optical
 
     fr = Frames()
@@ -592,15 +691,14 @@ def _run_flow(nsteps, kind="lla"):
         box["tok"] = tok = StartToken(ns, start)
         now = ns.ScenarioTime(fp.from_int(k0.t * dt.t, 0, SPAN))
         clock = _bare_clock(start, tok.jd, now, ns.ScenarioTime(fp.from_int(dt.t, 1, 86400)))
-        raw = None
+        raw, old = None, {}
+        prop_cfg = types.SimpleNamespace(propagation_model="special_perturbations", integration_method="RK45", station_keeping=False, sensor_realtime_propagation=True)
         if kind == "lla":
-            state = LLAStateConfig.model_construct(latitude=lat, longitude=lon, altitude=alt)
+            cfg, old = _lla_config(hist, {"latitude": lat, "longitude": lon, "altitude": alt},
+                                   lambda c: SA.SensingAgent.fromConfig(c, clock, DY.dynamicsFactory(c, prop_cfg, None, None, clock), prop_cfg))
         else:  # what Scenario.addSensor receives from a SensorAdditionEvent: the agent's ECI state at the time it is added
             raw = reals("cfg_eci", 6)
-            state = ECIStateConfig.model_construct(position=list(raw[:3]), velocity=list(raw[3:]))
-        platform = GroundFacilityConfig(mass=10000.0, visual_cross_section=400.0)
-        cfg = types.SimpleNamespace(id=120002, name="GROUND SENSOR", state=state, platform=platform, sensor=None)
-        prop_cfg = types.SimpleNamespace(propagation_model="special_perturbations", integration_method="RK45", station_keeping=False, sensor_realtime_propagation=True)
+            cfg = _ground_cfg(ECIStateConfig.model_construct(position=list(raw[:3]), velocity=list(raw[3:])))
         dyn = DY.dynamicsFactory(cfg, prop_cfg, None, None, clock)
         made = (dyn.datetime_start, dyn.julian_date_start, dyn.x_ecef)  # as returned by the factory, before anything is propagated
         agent = SA.SensingAgent.fromConfig(cfg, clock, dyn, prop_cfg)
@@ -611,7 +709,14 @@ def _run_flow(nsteps, kind="lla"):
             result = AP.asyncPropagate._function(sub)
             reg.processResults(result)
             snaps.append(_snapshot(fr, agent))
-    return dict(s0=s0, k0=k0, dt=dt, lat=lat, lon=lon, alt=alt, dyn=dyn, clock=clock, tok=tok, agent=agent, snaps=snaps, fr=fr, raw=raw, made=made)
+        fresh = None
+        if hist is not None:
+            # reference, built last so that it does not disturb the history under test: the same site configured for another agent by a configuration
+            # object without a history (validated at the final values)
+            fresh_cfg = _lla_config(None, {"latitude": lat, "longitude": lon, "altitude": alt}, None)[0]
+            fresh_cfg.id = 120003
+            fresh = DY.dynamicsFactory(fresh_cfg, prop_cfg, None, None, clock).x_ecef
+    return dict(s0=s0, k0=k0, dt=dt, lat=lat, lon=lon, alt=alt, dyn=dyn, clock=clock, tok=tok, agent=agent, snaps=snaps, fr=fr, raw=raw, made=made, old=old, fresh=fresh)
 
 
 def _snapshot(fr, agent):
@@ -619,12 +724,17 @@ def _snapshot(fr, agent):
             "epoch": agent.datetime_epoch}
 
 
-def _flow_inputs(nsteps, kind="lla"):
+def _flow_inputs(nsteps, kind="lla", hist=None):
     def f(m):
         g = lambda n: mval(m, z3.Int(n))  # noqa: E731
         d = {"config": kind, "start": _dt_of(g("s0")).isoformat(), "clock_time": g("k0") * g("dt"), "dt": g("dt"), "steps": nsteps}
         if kind == "lla":
             d.update({"lat_deg": mfloat(m, z3.Real("lat")), "lon_deg": mfloat(m, z3.Real("lon")), "alt_km": mfloat(m, z3.Real("alt"))})
+        if hist is not None:
+            op, fields, init = hist
+            first = dict(INIT_SITE) if init == "validated" else {"latitude": d["lat_deg"], "longitude": d["lon_deg"], "altitude": d["alt_km"],
+                                                                  **{fld: mfloat(m, z3.Real(f"old_{fld}")) for fld in fields}}
+            d["history"] = {"validated_at": first, "then": op, "fields": list(fields)}
         return d
     return f
 
@@ -643,18 +753,29 @@ def replay_flow(d):
 
     start = _dt.datetime.fromisoformat(d["start"])
     clock = _bare_clock(start, datetimeToJulianDate(start), ScenarioTime(d["clock_time"]), ScenarioTime(d["dt"]))
+    prop_cfg = types.SimpleNamespace(propagation_model="special_perturbations", integration_method="RK45", station_keeping=False, sensor_realtime_propagation=True)
+    cfg = None
     if d.get("config", "lla") == "lla":
         state = {"type": "lla", "latitude": d["lat_deg"], "longitude": d["lon_deg"], "altitude": d["alt_km"]}
         want = _geodetic_point(d["lat_deg"], d["lon_deg"], d["alt_km"])
+        if d.get("history"):
+            # the configuration object's history: really validated (pydantic) at the first site, then edited through the public API, then used below
+            h = d["history"]
+            cfg = _apply_history(_real_cfg({k: float(v) for k, v in h["validated_at"].items()}), h["then"], {k: float(state[k]) for k in h["fields"]},
+                                 lambda c: SensingAgent.fromConfig(c, clock, dynamicsFactory(c, prop_cfg, None, None, clock), prop_cfg))
     else:
         # the ECI state a SensorAdditionEvent hands to Scenario.addSensor: a ground site (representative: lat 0.1 rad, lon 1.1 rad, alt 5 km) at the epoch of the addition
         site = lla2ecef(np.array(ECI_SITE_LLA))
         want = site[:3]
         eci0 = ecef2eci(site, start + _dt.timedelta(seconds=d["clock_time"]))
         state = {"type": "eci", "position": [float(v) for v in eci0[:3]], "velocity": [float(v) for v in eci0[3:]]}
-    cfg = SensingAgentConfig(id=120002, name="GROUND SENSOR", platform={"type": "ground_facility"}, state=state, sensor=SENSOR_DICT)
-    prop_cfg = types.SimpleNamespace(propagation_model="special_perturbations", integration_method="RK45", station_keeping=False, sensor_realtime_propagation=True)
+    if cfg is None:
+        cfg = SensingAgentConfig(id=120002, name="GROUND SENSOR", platform={"type": "ground_facility"}, state=state, sensor=SENSOR_DICT)
     det, bad = {}, False
+    if d.get("history"):
+        det["configured (public fields of cfg.state when the agent is built)"] = {k: getattr(cfg.state, k) for k in FIELDS}
+        if any(float(getattr(cfg.state, k)) != float(state[k]) for k in FIELDS):
+            return False, {"harness": "the replayed history does not end at the model's site", **det}
 
     def judge(tag, ecef, eci, when):
         nonlocal bad
@@ -711,16 +832,32 @@ def _geodetic_point(lat_deg, lon_deg, alt):
 
 
 def _prove2(rep, label, goal, cons, generic, **kw):
-    """First ask for a counterexample at a generic site (so that it replays), then over the whole domain."""
+    """The whole domain is decided; when it is not 'unsat', a counterexample is first asked at a generic site (so that it replays), then over the whole domain."""
+    if generic and not kw.get("linearize"):
+        # proof attempt on the constraints that speak about the goal's variables only (dropping constraints is sound for 'unsat')
+        v = solve(slice_for(goal, list(cons)) + [z3.Not(goal)], kw.get("timeout_ms", 30000))
+        if v.status == "unsat":  # holds for every site: nothing to replay
+            rep._item(label, "prove", v)
+            if kw.get("sample") is not None:
+                rep.sample({"obligation": f"{rep.ob}:{label}", "verdict": v.status, "what": kw["sample"]})
+            return True
     if generic:
         r = rep.prove(f"{label}[generic-site]", goal, list(cons) + generic, **kw)
         if r is not True:
+            return r
+    return rep.prove(label, goal, cons, **kw)
+
+
+def o_flow(rep, nsteps, site=True, kind="lla", hist=None):
+    if kind == "lla":
+        try:
+            same, det = _emulation_pin()
+        except Exception as e:  # noqa: BLE001
+            same, det = False, {"raised": repr(e)}
+        if not same:
+            rep.error("validation-emulation", f"emulated validation of LLAStateConfig differs from the real pydantic validation on the pinned site: {det}")
             return
-    rep.prove(label, goal, cons, **kw)
-
-
-def o_flow(rep, nsteps, site=True, kind="lla"):
-    res = explore(lambda: _run_flow(nsteps, kind), max_paths=64, branch_timeout_ms=20000, catch=(Exception,))
+    res = explore(lambda: _run_flow(nsteps, kind, hist), max_paths=64, branch_timeout_ms=20000, catch=(Exception,))
     n_ok = n_adv = 0
     for k, r in enumerate(res):
         if r.exc is not None:
@@ -732,7 +869,11 @@ def o_flow(rep, nsteps, site=True, kind="lla"):
         lat, lon, alt = o["lat"], o["lon"], o["alt"]
         ab = lambda v: z3.If(v.t >= 0, v.t, -v.t)  # noqa: E731
         generic = ([ab(lat) >= 5, ab(lat) <= 80, ab(lon) >= 5, ab(lon) <= 175, ab(lat - lon) >= 5, ab(lat + lon) >= 5, alt.t >= 1, alt.t <= 5] if kind == "lla" else [])
-        kw = dict(inputs=_flow_inputs(nsteps, kind), replay=replay_flow, timeout_ms=60000)
+        for f, v in o["old"].items():
+            # the site the configuration was first validated at is a generic one too, and far (>= 1 deg / 1 km) from the final one, so that a counterexample replays in doubles
+            nv = {"latitude": lat, "longitude": lon, "altitude": alt}[f]
+            generic += [ab(v - nv) >= 1] + ([ab(v) >= 5, ab(v) <= (80 if f == "latitude" else 175)] if f != "altitude" else [v.t >= 1, v.t <= 5])
+        kw = dict(inputs=_flow_inputs(nsteps, kind, hist), replay=replay_flow, timeout_ms=60000)
         if kind == "eci":
             kw["regions"] = {"C11-eci-ground-advanced-clock": o["k0"].t >= 1}
         dyn, clock, tok, agent, snaps = o["dyn"], o["clock"], o["tok"], o["agent"], o["snaps"]
@@ -747,8 +888,15 @@ def o_flow(rep, nsteps, site=True, kind="lla"):
             with resume(r.path):
                 geo = _geodetic_goals(x[:3], lat, lon, alt)
             cons = r.path.constraints()
-            for name, g in geo.items():
-                _prove2(rep, f"site-{name}#{k}", g, cons, generic, sample="Terrestrial.x_ecef is the point at the configured geodetic latitude/longitude/altitude (ellipsoid foot point + altitude along the normal)", **kw)
+            facets = [("normal-parallel", geo["normal-parallel"]), ("normal-outward", geo["normal-outward"]), ("on-ellipsoid", geo["on-ellipsoid"])]
+            what = "Terrestrial.x_ecef is the point at the configured geodetic latitude/longitude/altitude (ellipsoid foot point + altitude along the normal)"
+            if o["fresh"] is not None:
+                what += "; with a history: it equals the site built from a configuration validated directly at the same latitude/longitude/altitude"
+                facets.insert(0, ("history-independent", eq_arrays(x, o["fresh"]) if np.shape(o["fresh"]) == np.shape(x) else z3.BoolVal(False)))
+            for name, g in facets:
+                if _prove2(rep, f"site-{name}#{k}", g, cons, generic, sample=what, **kw) is False:
+                    rep.note(f"site-{name}#{k} is violated: the remaining facets of 'x_ecef is the configured geodetic point' are not asked")
+                    break
             _prove2(rep, f"site-at-rest#{k}", z3.And(*[t == 0 for t in terms(x[3:])]), cons, generic, sample="Terrestrial.x_ecef has zero Earth-fixed velocity", **kw)
         if kind == "eci":
             # the Earth-fixed point the dynamics will hold the agent at is the point the agent is created at
@@ -802,6 +950,16 @@ def obligations(tier):
     REPLAYS["O4-factory"] = replay_flow
     obs.append(Ob("O5-steps", lambda rep: o_flow(rep, n, site=False), f"{n} propagation steps of the ground agent: site recovered at every epoch", 300))
     REPLAYS["O5-steps"] = replay_flow
+    hists = [("assign", FIELDS, "validated"), ("copy", FIELDS, "validated"), ("reuse", FIELDS, "validated"), ("assign", ("longitude",), "symbolic")]
+    if not quick:
+        hists += [("copy", ("latitude",), "symbolic"), ("assign", ("altitude",), "symbolic"), ("reuse", FIELDS, "symbolic"), ("copy", ("longitude", "altitude"), "symbolic")]
+    for h in hists:
+        name = f"O7-history-{h[0]}-{'all' if h[1] == FIELDS else '+'.join(h[1])}-from-{h[2]}"
+        obs.append(Ob(name, (lambda h: lambda rep: o_flow(rep, 0, hist=h))(h),
+                      "a site configuration that was validated at one location and then edited through the public API "
+                      f"({'attribute assignment' if h[0] == 'assign' else 'model_copy(update=...)' if h[0] == 'copy' else 'used for a first agent, then attribute assignment'} of {', '.join(h[1])}; "
+                      f"first validated {'by the real pydantic validation at a concrete site' if h[2] == 'validated' else 'at a symbolic site'}) gives an agent at the location its public fields show", 300))
+        REPLAYS[name] = replay_flow
     obs.append(Ob("O6-eci-configured", lambda rep: o_flow(rep, 1 if quick else 2, kind="eci"),
                   "ground sensor handed to Scenario.addSensor with an ECI state (SensorAdditionEvent) on an advanced clock: it is held where it was created", 300))
     REPLAYS["O6-eci-configured"] = replay_flow
